@@ -127,8 +127,9 @@ Definition paa_apply (m : nat) (p : panel) : res panel :=
 
 (* ------------------------------------------------------------------------------------------ *)
 (* IntervalSegmenter.  np.array_split(arange(n), k): the first n mod k chunks have n/k + 1
-   points, the others n/k; chunk boundaries are the cumulative sums.  An interval is the
-   half-open range [start, end).                                                              *)
+   points, the others n/k; chunk boundaries are the cumulative sums.  fit stores every chunk as
+   the half-open range [start, end) = [chunk[0], chunk[-1] + 1), the same convention as the rows
+   of an explicit interval array; transform slices X[:, start:end].                           *)
 
 Definition split_sizes (n k : nat) : list nat :=
   repeat (S (n / k)) (n mod k) ++ repeat (n / k)%nat (k - n mod k).
@@ -138,21 +139,14 @@ Definition split_bounds (n k : nat) : list (nat * nat) := chunks_from 0 (split_s
 
 Definition segment (ivs : list (nat * nat)) (s : series) : inst :=
   map (fun iv => slice (fst iv) (snd iv) s) ivs.
-(* the unchanged code for an int `intervals`: start, end = chunk[0], chunk[-1]; X[:, start:end] *)
-Definition segment_faithful (ivs : list (nat * nat)) (s : series) : inst :=
-  map (fun iv => slice (fst iv) (snd iv - 1) s) ivs.
-
 Definition univariate (p : panel) : bool := forallb (fun i => (length i =? 1)%nat) p.
 Definition equal_length (p : panel) : bool := (max_len p =? min_len p)%nat.
 Definition only_col (i : inst) : series := hd [] i.
 
-Definition iseg_int_with (seg : list (nat * nat) -> series -> inst) (k : nat) (pfit p : panel)
-  : res panel :=
+Definition iseg_int (k : nat) (pfit p : panel) : res panel :=
   let n := first_len pfit in
   if negb (univariate p) || negb (equal_length p) || (k =? 0)%nat || (n / 2 <? k)%nat then Err
-  else Ok (map (fun i => seg (split_bounds n k) (only_col i)) p).
-Definition iseg_int := iseg_int_with segment.
-Definition iseg_int_faithful := iseg_int_with segment_faithful.
+  else Ok (map (fun i => segment (split_bounds n k) (only_col i)) p).
 Definition iseg_arr (ivs : list (nat * nat)) (p : panel) : res panel :=
   if negb (univariate p) || negb (equal_length p) then Err
   else Ok (map (fun i => segment ivs (only_col i)) p).
@@ -319,7 +313,9 @@ Definition impute_core (m : imethod) (l : oseries) : oseries :=
   | INearest => map (near_at l) (positions l)
   | ILinear => map (lin_at l) (positions l)
   | IDrift =>
-      (* documented rule: trend fitted on the ffill/bfill-ed series fills the gaps *)
+      (* trend (PolynomialTrendForecaster(degree=1) = least-squares line over positions
+         0..n-1) fitted on the ffill/bfill-ed COPY of the series; the gaps of the series itself
+         take the in-sample value of the line *)
       match observed l with
       | [] => l
       | _ => let '(a, b) := ols_line (observed (final_fill l)) in
@@ -336,8 +332,6 @@ Definition impute_res (m : imethod) (l : oseries) : res oseries :=
   | IDrift, [] => Err
   | _, _ => Ok (impute m l)
   end.
-(* the unchanged code for "drift": ffill/bfill happens BEFORE the fit, nothing is left to fill *)
-Definition impute_drift_faithful (l : oseries) : oseries := final_fill l.
 
 (* ------------------------------------------------------------------------------------------ *)
 (* CosineTransformer: cos is not rational; degree-2N Taylor polynomial, exact in Q.           *)
